@@ -408,7 +408,7 @@ async def random_schedule(ex, spawn, settle):
         if a == "spawn":
             i = to_spawn.pop(0)
             c = Caller(i, rng.randrange(cfg["origins"]), hold=rng.random() < cfg.get("p_hold", 0.3),
-                       pool_timeout=cfg.get("pool_timeout"), body=(b"B%d" % i if rng.random() < cfg.get("p_body", 0.0) else None),
+                       pool_timeout=(None if ("p_no_timeout" in cfg and rng.random() < cfg["p_no_timeout"]) else cfg.get("pool_timeout")), body=(b"B%d" % i if rng.random() < cfg.get("p_body", 0.0) else None),
                        mode=(rng.choice(cfg["modes"]) if cfg.get("modes") else "read"))     # no extra draw without "modes": stored replays stay valid
             ex.callers.append(c)
             spawn(c)
@@ -680,6 +680,9 @@ def run_c07(ctx, rec):
     explore(ctx, rec, "C07", {"p_fault": 0.0, "p_cancel": 0.0, "http2": True, "p_conn_close": 0.0, "pool_timeout": None}, 60, 3000, ["C07:"])
     explore(ctx, rec, "C07", {"p_fault": 0.05, "p_cancel": 0.05, "http2": True, "p_conn_close": 0.0, "pool_timeout": None,
                               "max_connections": 1}, 60, 3000, ["C07:"])
+    # some callers wait with a pool time-out, others without one: a waiter that leaves with PoolTimeout hands on what it was given
+    explore(ctx, rec, "C07", {"p_fault": 0.0, "p_cancel": 0.0, "pool_timeout": 4.0, "p_no_timeout": 0.5, "gate_close": True, "p_conn_close": 0.2,
+                              "max_connections": 1, "p_hold": 0.5, "callers": 4}, 40, 3000, ["C07:"])
     # HTTP/2 offered, HTTP/1.1 negotiated: the request that finds the shared connection taken is queued again and must be served by
     # whatever capacity there is (room for a new connection, an idle one to evict) without waiting for another event
     explore(ctx, rec, "C07", {"p_fault": 0.0, "p_cancel": 0.0, "h2_fallback": True, "p_conn_close": 0.0, "pool_timeout": None, "p_hold": 0.6},
